@@ -3173,8 +3173,13 @@ class MOFCompiler:
                 msg=_format(
                     "MOF file {0!A} includes itself (directly or indirectly)",
                     filename))
-        with open(filename, encoding='utf-8') as f:
-            mof = f.read()
+        try:
+            with open(filename, encoding='utf-8') as f:
+                mof = f.read()
+        except UnicodeDecodeError as exc:
+            raise MOFParseError(
+                msg=_format("MOF file {0!A} is not encoded in UTF-8: {1}",
+                            filename, exc))
 
         self._files_being_compiled.append(os.path.abspath(filename))
         try:
